@@ -21,6 +21,8 @@ import (
 	"hash/fnv"
 	"math/rand"
 	"os"
+	"runtime"
+	"strconv"
 	"strings"
 	"sync"
 	"sync/atomic"
@@ -328,7 +330,24 @@ func errStr(err error) string {
 
 // ---------------------------------------------------------------- SDK warning "dropped log records"
 
+// goid returns the id of the calling goroutine (harness-only use: telling the poll goroutine of the current scenario's
+// processor from one that outlived an earlier scenario because a Shutdown whose context had ended did not wait for it).
+func goid() int64 {
+	var buf [64]byte
+	n := runtime.Stack(buf[:], false)
+	f := strings.Fields(string(buf[:n]))
+	if len(f) < 2 {
+		return -1
+	}
+	id, err := strconv.ParseInt(f[1], 10, 64)
+	if err != nil {
+		return -1
+	}
+	return id
+}
+
 var (
+	pollGID    atomic.Int64 // goroutine id of the current scenario's poll goroutine (0: not seen yet; hooks only)
 	curScn     atomic.Int64 // scenario whose poll goroutine may log right now
 	logTainted atomic.Bool  // a processor of an abandoned scenario may still be polling: stop attributing
 	logTW      *vh.TraceWriter
@@ -344,6 +363,9 @@ func (s warnSink) WithName(string) logr.LogSink   { return s }
 func (warnSink) Info(_ int, msg string, kv ...any) {
 	if msg != "dropped log records" || logTainted.Load() || logTW == nil {
 		return
+	}
+	if haveHooks && pollGID.Load() != goid() {
+		return // the poll goroutine of an earlier scenario's processor, on its way out
 	}
 	for i := 0; i+1 < len(kv); i += 2 {
 		if k, _ := kv[i].(string); k == "dropped" {
@@ -405,6 +427,7 @@ func runScenario(scn int, sc Scenario, pts bool, tw *vh.TraceWriter, res *vh.Res
 		"hooks": haveHooks, "name": sc.Name, "kind": "batch", "emitters": sc.Emitters, "recsPer": sc.RecsPer,
 		"flushers": fnames, "stoppers": snames, "pts": pts, "untainted": !logTainted.Load()})
 	curScn.Store(int64(scn))
+	pollGID.Store(0)
 	bp := sdklog.NewBatchProcessor(exp,
 		sdklog.WithMaxQueueSize(sc.QCap), sdklog.WithExportMaxBatchSize(sc.MaxBatch), sdklog.WithExportBufferSize(sc.BufSize),
 		sdklog.WithExportInterval(interval), sdklog.WithExportTimeout(time.Duration(sc.ExportTOms)*time.Millisecond))
@@ -508,6 +531,9 @@ func runScenario(scn int, sc Scenario, pts bool, tw *vh.TraceWriter, res *vh.Res
 		case "blp.poll.woke", "blp.poll.dequeued":
 			if b, ok := args[0].(*sdklog.BatchProcessor); !ok || b != bp {
 				return
+			}
+			if point == "blp.poll.woke" && pollGID.Load() == 0 {
+				pollGID.Store(goid())
 			}
 			qlen := 0
 			if len(args) > 1 {
